@@ -30,6 +30,8 @@ def common_doc(r, depth=3):
     c = r.random()
     if depth <= 0 or c < 0.35:
         k = r.random()
+        if k < 0.05:
+            return ""
         if k < 0.35:
             return r.choice(ALNUM)
         if k < 0.65:
